@@ -10,6 +10,7 @@ from ..engine import chunks
 from . import c02
 
 ID = "C05"
+LEAN = True  # cases are distinct by construction; see engine.Acc
 RULE = (
     "documents = generated entries (heads x keys x field lists over the 17-value catalogue incl. concatenations, numbers, nested braces, "
     "quote-in-brace-in-quote, multi-line values, zero fields) + every document of <=2/<=3 catalogue blocks (all block kinds, resolved and "
